@@ -261,11 +261,20 @@ def main(argv):
 
     # native hooks: bounded native stand-ins and known-finding probes
     native_report = None
+    reports = []
     if hooks is not None and hasattr(hooks, "native_checks"):
         try:
             native_report = hooks.native_checks(tier, seed)
+            reports.append(native_report)
         except Exception:
             faults.append("native hooks crashed: " + traceback.format_exc())
+    try:
+        from contracts import scenarios as _scen
+
+        reports.append(_scen.native_checks(prop, tier))
+    except Exception:
+        faults.append("scenario corpus crashed: " + traceback.format_exc())
+    for native_report in reports:
         if native_report:
             for b in native_report.get("bounded", []):
                 bounded.append(b)
@@ -383,7 +392,7 @@ def main(argv):
             "samples": samples or [{"note": "no discharged obligation to show"}],
             "explanation": "obligations generated by symbolic execution of the real function bodies under sidecar contracts; "
                            "level is 'proof' only if every unbounded obligation was discharged in this run",
-            "native": native_report.get("summary") if native_report else None,
+            "native": {"hooks": [r.get("summary") for r in reports if r]} if any(reports) else None,
             "canaries": canaries,
         },
         "assumptions": trusted,
